@@ -293,6 +293,17 @@ impl<'a> Gen<'a> {
         let roll = self.rng.below(100);
         if roll < 8 { return "_".into(); }
         if roll < 20 || matches!(v, Ty::Fn(..)) { if s.may_be_nil() && !self.allow_nil_binds { return "_".into(); } let n = self.name(); binds.push((n.clone(), s.clone())); return n; }
+        if roll < 33 && !s.has_fn() { if let Ty::Tup(tn, fs) = &v { if !fs.is_empty() && self.rng.chance(1, 5) {
+            // a type that differs from the variant only in its labels: never matches
+            let all_named = fs.iter().all(|(l, _)| l.is_some());
+            let relabelled: Vec<(Option<String>, Ty)> = if all_named { fs.iter().map(|(_, t)| (None, t.clone())).collect() } else { fs.iter().enumerate().map(|(i, (_, t))| (Some(FIELDS[i % 3].to_string()), t.clone())).collect() };
+            let rt = Ty::Tup(tn.clone(), relabelled);
+            if !vs.contains(&rt) {
+                self.feat("type_pattern_differing_only_in_labels");
+                if roll < 28 { let n = self.name(); binds.push((n.clone(), rt.clone())); return format!("({}){}", rt.src(), n); }
+                return rt.src();
+            }
+        } } }
         if roll < 28 && !s.has_fn() { self.feat("type_ascription_pattern"); let n = self.name(); binds.push((n.clone(), v.clone())); return format!("({}){}", v.src(), n); }
         if roll < 33 && !s.has_fn() { self.feat("type_pattern"); return v.src(); }
         if roll < 40 {
@@ -761,6 +772,6 @@ pub fn check(rep: &Report) {
     done.store(true, std::sync::atomic::Ordering::Relaxed);
 }
 
-pub const RULE: &str = "for every program of the workload (repository corpus, perturbed corpus, generated programs) that the compiler accepts and the reference evaluator covers: normalised value of compile+run == normalised value of the independent reference evaluator of docs/spec.md, and error-vs-value agrees";
+pub const RULE: &str = "for every program of the workload (repository corpus, perturbed corpus, generated programs) that the compiler accepts and the reference evaluator covers: normalised value of compile+run == normalised value of the independent reference evaluator of docs/spec.md, and error-vs-value agrees; and a generated program (every name in scope by construction) that the reference evaluator runs to a value is not rejected by the compiler for an undefined variable";
 pub const ASSUME: &[&str] = &["the reference evaluator (harness/vh/src/refsem.rs) is the reading of docs/spec.md; it was calibrated on the repository's own expected values and shares no code with the compiler or VM (only the parser's AST)", "programs using processes, %ref, inferred-parameter literals or type tests on function types are outside the evaluator and counted inconclusive", "two Destructuring examples in docs/spec.md that the implementation and its tests contradict are read the implementation's way"];
 pub const SITUATIONS: &[&str] = &["corpus_agree", "mutated_agree", "generated_agree", "observed_matches_failed", "observed_branches_fallen_through", "observed_sequence_short_circuits", "observed_tail_calls", "observed_spreads", "generated_feature_mid_chain_match", "generated_feature_multi_step_consequence", "generated_feature_tail_call_from_nested_block", "generated_feature_closure_captures_in_scope"];
